@@ -17,7 +17,7 @@ RULE = ("structured: one target gate of every multi-input type with fan-in k-1, 
 EXPLANATION = ("run validators for limit_fanin/limit_fanout and a model of insert_registers proved function-preserving for all circuits, "
                "all k >= 2 and all accepted executions (set orders); tied to tx.py by the regenerated gatemap/guards/helper type and "
                "by replaying every implementation run through the validators")
-SHARD = 60
+SHARD = 48
 HASHSEEDS = {"quick": [0, 1], "thorough": [0, 1, 2, 3, 4, 5, 6, 7]}
 MULTI = lib.MULTI
 
@@ -306,9 +306,9 @@ def generate(rng, tier):
                     out.append(gen_fanin_struct(rng, t, k, ar))
             for t in SRC_TYPES:
                 for nl in sorted({k - 1, k, k + 1, 2 * k + 1}):
-                    if tier != "quick" or rng.random() < 0.5 or nl > k:
+                    if tier != "quick" or rng.random() < (0.35 if nl <= k else 0.75):
                         out.append(gen_fanout_struct(rng, t, k, nl))
-    n = 40 if tier == "quick" else 250
+    n = 28 if tier == "quick" else 250
     out += [gen_random(rng, "limit_fanin") for _ in range(n)] + [gen_random(rng, "limit_fanout") for _ in range(n)]
     out += [gen_cyclic(rng, fn) for fn in ("limit_fanin", "limit_fanout") for _ in range(10 if tier == "quick" else 60)]
     m = 6 if tier == "quick" else 50
@@ -316,8 +316,8 @@ def generate(rng, tier):
         out += [gen_with_bb(rng, fn) for _ in range(m)] + [gen_twice(rng, fn) for _ in range(m)] + [gen_kinds(rng, fn) for _ in range(m // 2)]
     out += [gen_regs_args(rng) for _ in range(15 if tier == "quick" else 120)]
     out += [gen_reject(rng, rng.choice(["limit_fanin", "limit_fanout"])) for _ in range(4 if tier == "quick" else 12)]
-    out += [gen_regs(rng) for _ in range(60 if tier == "quick" else 300)]
-    out += [gen_unroll(rng) for _ in range(30 if tier == "quick" else 120)]
+    out += [gen_regs(rng) for _ in range(45 if tier == "quick" else 300)]
+    out += [gen_unroll(rng) for _ in range(20 if tier == "quick" else 120)]
     rng.shuffle(out)      # mix the kinds so that the Coq shards cost about the same
     return out
 
